@@ -61,6 +61,7 @@ async def _main(loop, params, res):
     checks_at_return = []
     undeploy_returns = []  # (request index, {name: instance registered when the request was issued}, log length at return)
     issued_at = {}
+    inflight = {}
     made = []
     loc = ExecutionLocation(name="loc0", deployment="A")
 
@@ -75,12 +76,20 @@ async def _main(loop, params, res):
                 snap[n] = conn.instance_id
         return snap
 
+    def pins():
+        """names whose deploy request is in flight right now + lazy deployments registered but not materialised yet"""
+        return sorted(set(inflight.values()) | {n for n, c in dm.deployments_map.items() if isinstance(c, FutureConnector)})
+
     async def do(i, req):
         kind, name = req[0], (req[1] if len(req) > 1 else None)
         issued_at[i] = len(issued_at)
         try:
             if kind == "deploy":
-                await dm.deploy(dep_config(name, topo, lazy, fail))
+                inflight[i] = name
+                try:
+                    await dm.deploy(dep_config(name, topo, lazy, fail))
+                finally:
+                    inflight.pop(i, None)
                 conn = dm.deployments_map.get(name)
                 if conn is not None and not isinstance(conn, FutureConnector):
                     if not conn.deployed and ("deploy_end", name, conn.instance_id) not in fakes.LOG:
@@ -90,11 +99,11 @@ async def _main(loop, params, res):
             elif kind == "undeploy":
                 snap = registered(name)
                 await dm.undeploy(name)
-                undeploy_returns.append((i, snap, len(fakes.LOG)))
+                undeploy_returns.append((i, snap, len(fakes.LOG), pins()))
             elif kind == "undeploy_all":
                 snap = registered()
                 await dm.undeploy_all()
-                undeploy_returns.append((i, snap, len(fakes.LOG)))
+                undeploy_returns.append((i, snap, len(fakes.LOG), pins()))
             elif kind == "use":
                 conn = dm.get_connector(name)
                 if conn is None:
@@ -204,7 +213,14 @@ def judge(params, ex, res):
     # registered when the request started (deployed or still deploying) is no longer live at the return, unless a
     # deployment wrapping it is live at that moment or a deploy request started after this one
     issued = res.get("issued_at", {})
-    for i, snap, at in res.get("undeploy_returns", []):
+    def wraps_transitively(w, x):
+        while w:
+            w = TOPOLOGIES[topo][w][1]
+            if w == x:
+                return True
+        return False
+
+    for i, snap, at, pinned_by in res.get("undeploy_returns", []):
         later_deploy = any(r[0] in ("deploy", "use") and issued.get(j, 1 << 30) > issued[i]
                            for j, r in enumerate(params["requests"]))
         if later_deploy:
@@ -218,6 +234,18 @@ def judge(params, ex, res):
                 continue
             if any(TOPOLOGIES[topo][n][1] == name and s in ("deploying", "deployed", "undeploying")
                    for j, s in st.items() for n in [name_of[j]]):
+                continue
+            # (so does a wrapper whose deploy request is in flight at that moment -- it registered its dependency on the
+            #  inner deployment before the undeploy looked -- and a lazy wrapper that is registered but not materialised)
+            if any(wraps_transitively(w, name) for w in pinned_by):
+                continue
+            failing = set(params.get("fail", []))
+            if failing and any(wraps_transitively(w, name) for w in failing):
+                # recorded cause: the deployment of a wrapper FAILS while the undeploy waits for it; the inner deployment
+                # loses its last dependent without being undeployed and stays live until the next undeploy_all
+                fails.append((f"C26|undeploy-returned-leaving-live|cause=wrapper-deployment-fails-while-undeploy-waits|topo={topo}",
+                              f"request {params['requests'][i]} returned normally while {name}#{inst} is still {st.get(inst)} "
+                              f"and nothing wrapping it is live; requests {res['made']}; outcomes {res['outcomes']}; log {log[:at]}"))
                 continue
             fails.append((f"{base}|undeploy-returned-leaving-live|{reqs}",
                           f"request {params['requests'][i]} returned normally while {name}#{inst}, registered when it "
@@ -274,7 +302,7 @@ def cases_for(tier):
 
     def add(topo, requests, lazy=(), fail=(), bound=None, idle=None):
         c = {"topo": topo, "requests": [list(r) for r in requests], "lazy": list(lazy), "fail": list(fail)}
-        c["bound"] = bound if bound is not None else (1 if quick else 2)
+        c["bound"] = bound if bound is not None else (1 if quick else 3)
         out.append(c)
         if idle:
             out.append(dict(c, idle_only=True, bound=idle))
@@ -297,7 +325,20 @@ def cases_for(tier):
         if not quick:
             for combo in itertools.combinations_with_replacement(al, 4):
                 if sum(1 for r in combo if r[0] == D) >= 2:
-                    add(topo, combo, bound=0, idle=2)
+                    add(topo, combo, bound=1, idle=2)
+        # systematic lazy / failing variants (thorough): every non-empty set of lazy names, every single failing name
+        if not quick and topo in ("single", "pair", "chain"):
+            names = sorted(TOPOLOGIES[topo])
+            for k in (2, 3):
+                for lz in itertools.chain.from_iterable(itertools.combinations(names, n) for n in range(1, len(names) + 1)):
+                    al2 = al + [(USE, n) for n in lz]
+                    for combo in itertools.combinations_with_replacement(al2, k):
+                        if any(r[0] == D for r in combo) and any(r[0] == USE for r in combo):
+                            add(topo, combo, lazy=lz, bound=1 if k == 3 else 2, idle=2)
+                for fl in names:
+                    for combo in itertools.combinations_with_replacement(al, k):
+                        if sum(1 for r in combo if r[0] == D) >= 1 and (k == 2 or topo != "chain"):
+                            add(topo, combo, fail=[fl], bound=1 if k == 3 else 2, idle=2)
     # lazy deployments: first use through the FutureConnector
     for reqs in [[(D, "A"), (USE, "A")], [(D, "A"), (USE, "A"), (USE, "A")], [(D, "A"), (USE, "A"), (UA,)],
                  [(D, "A"), (D, "A"), (USE, "A")]]:
@@ -310,6 +351,7 @@ def cases_for(tier):
     add("pair", [(D, "B"), (D, "B")], fail=["A"], idle=2)
     add("pair", [(D, "B"), (D, "A")], fail=["A"], idle=2)
     add("pair", [(D, "B"), (D, "B")], fail=["B"], idle=2)
+    add("pair", [(D, "B"), (UA,)], fail=["B"], idle=2)
     add("single", [(D, "A"), (USE, "A"), (USE, "A")], lazy=["A"], fail=["A"], idle=2)
     return out
 
